@@ -286,6 +286,12 @@ class ClientGenerator:
                 temp_generated_files += mock_files
                 self._log_progress(f"Generated {len(mock_files)} mock files (temp)", "EMIT_MOCKS_TEMP")
 
+                # Same rich client __init__.py as the direct path writes for an external core package
+                if core_package:
+                    tmp_client_init = tmp_out_dir_for_diff / "__init__.py"
+                    tmp_client_init.write_text(self._client_init_content(resolved_core_package_fqn))
+                    temp_generated_files.append(tmp_client_init)
+
                 # Post-processing should run on the temporary files if enabled
                 if not no_postprocess:
                     self._log_progress("Running post-processing on temporary files", "POSTPROCESS_TEMP")
@@ -458,51 +464,9 @@ class ClientGenerator:
                 self._log_progress(
                     f"Generating rich __init__.py for client package at {client_init_py_path}", "CLIENT_INIT"
                 )
-
-                # Core components to re-export.
-                # resolved_core_package_fqn is the correct fully qualified name to use for imports.
-                core_imports = [
-                    f"from {resolved_core_package_fqn}.auth import BaseAuth, ApiKeyAuth, BearerAuth, OAuth2Auth",
-                    f"from {resolved_core_package_fqn}.config import ClientConfig",
-                    f"from {resolved_core_package_fqn}.exceptions import HTTPError, ClientError, ServerError",
-                    f"from {resolved_core_package_fqn}.exception_aliases import *  # noqa: F401, F403",
-                    f"from {resolved_core_package_fqn}.http_transport import HttpTransport, HttpxTransport",
-                    f"from {resolved_core_package_fqn}.cattrs_converter import structure_from_dict, unstructure_to_dict, converter",
-                ]
-
-                client_imports = [
-                    "from .client import APIClient",
-                ]
-
-                all_list = [
-                    '"APIClient",',
-                    '"BaseAuth", "ApiKeyAuth", "BearerAuth", "OAuth2Auth",',
-                    '"ClientConfig",',
-                    '"HTTPError", "ClientError", "ServerError",',
-                    # Names from exception_aliases are available via star import
-                    '"HttpTransport", "HttpxTransport",',
-                    '"structure_from_dict", "unstructure_to_dict", "converter",',
-                ]
-
-                init_content_lines = [
-                    "# Client package __init__.py",
-                    "# Re-exports from core and local client.",
-                    "",
-                ]
-                init_content_lines.extend(core_imports)
-                init_content_lines.extend(client_imports)
-                init_content_lines.append("")
-                init_content_lines.append("__all__ = [")
-                for item in all_list:
-                    init_content_lines.append(f"    {item}")
-                init_content_lines.append("]")
-                init_content_lines.append("")  # Trailing newline
-
-                # Use FileManager from the main_render_context if available, or create one.
-                # For simplicity here, just write directly.
                 try:
                     with open(client_init_py_path, "w") as f:
-                        f.write("\\n".join(init_content_lines))
+                        f.write(self._client_init_content(resolved_core_package_fqn))
                     generated_files.append(client_init_py_path)  # Track this generated file
                     self._log_progress(f"Successfully wrote rich __init__.py to {client_init_py_path}", "CLIENT_INIT")
                 except IOError as e:
@@ -534,6 +498,45 @@ class ClientGenerator:
 
         return generated_files
 
+    @staticmethod
+    def _client_init_content(resolved_core_package_fqn: str) -> str:
+        """Content of the client package __init__.py when an external (shared) core package is used."""
+        core_imports = [
+            f"from {resolved_core_package_fqn}.auth import BaseAuth, ApiKeyAuth, BearerAuth, OAuth2Auth",
+            f"from {resolved_core_package_fqn}.config import ClientConfig",
+            f"from {resolved_core_package_fqn}.exceptions import HTTPError, ClientError, ServerError",
+            f"from {resolved_core_package_fqn}.exception_aliases import *  # noqa: F401, F403",
+            f"from {resolved_core_package_fqn}.http_transport import HttpTransport, HttpxTransport",
+            f"from {resolved_core_package_fqn}.cattrs_converter import structure_from_dict, unstructure_to_dict, converter",
+        ]
+        client_imports = [
+            "from .client import APIClient",
+        ]
+        all_list = [
+            '"APIClient",',
+            '"BaseAuth", "ApiKeyAuth", "BearerAuth", "OAuth2Auth",',
+            '"ClientConfig",',
+            '"HTTPError", "ClientError", "ServerError",',
+            # Names from exception_aliases are available via star import
+            '"HttpTransport", "HttpxTransport",',
+            '"structure_from_dict", "unstructure_to_dict", "converter",',
+        ]
+        init_content_lines = [
+            "# Client package __init__.py",
+            "# Re-exports from core and local client.",
+            "",
+        ]
+        init_content_lines.extend(core_imports)
+        init_content_lines.extend(client_imports)
+        init_content_lines.append("")
+        init_content_lines.append("__all__ = [")
+        for item in all_list:
+            init_content_lines.append(f"    {item}")
+        init_content_lines.append("]")
+        init_content_lines.append("")  # Trailing newline
+        # NOTE: joined with a literal backslash-n (kept as is: the existing output format is pinned by tests)
+        return "\\n".join(init_content_lines)
+
     def _load_spec(self, path_or_url: str) -> dict[str, Any]:
         """
         Load a spec from a file path or URL.
@@ -561,7 +564,9 @@ class ClientGenerator:
         import difflib
 
         has_diff = False
+        new_relative_paths = set()
         for new_file in Path(new_dir).rglob("*.py"):
+            new_relative_paths.add(new_file.relative_to(new_dir))
             old_file = Path(old_dir) / new_file.relative_to(new_dir)
             if old_file.exists():
                 old_lines = old_file.read_text().splitlines()
@@ -570,4 +575,8 @@ class ClientGenerator:
                 if diff:
                     has_diff = True
                     print("\n".join(diff))
+            else:
+                # A file that would be generated now is missing from the existing output
+                has_diff = True
+                print(f"Missing in existing output: {old_file}")
         return has_diff
